@@ -335,6 +335,74 @@ def run_throttled(case):
     return part
 
 
+def run_tail(case):
+    """a download whose end fits into the transport's write buffer while the data peer has stopped reading: the
+    transfer is over for the server (226), the closing data socket still holds the unsent tail - if nothing of it is
+    taken for socket_timeout the socket is given up, not kept for as long as the peer likes"""
+    idle, sock, wf = case["cfg"]
+    verb = case["verb"]
+    part = report.Partial()
+    spy = backends.SpyControl()
+    rig = Rig(n_sessions=1, tree=corpus.TREE, spy=spy, window=4096, advance=0,
+              server_kwargs={"block_size": 4, "idle_timeout": idle, "socket_timeout": sock, "wait_future_timeout": wf})
+    problems = []
+    try:
+        w = rig.world
+        w.net.sndbuf = case["sndbuf"]           # the kernel takes that much; the rest stays in the transport's buffer
+        s = rig.sessions[0]
+        for n, e in enumerate(["@connect", "USER anonymous", "EPSV", "@data", "@dstop"]):
+            w.advance_to(n * GAP)
+            rig.ev(0, e)
+        t_verb = 5 * GAP
+        w.advance_to(t_verb)
+        r = rig.ev(0, verb)
+        codes = [c for c, _ in (r or [])]
+        data_t = [t for t in w.net.all_transports if t.side == "server" and t.get_extra_info("sockname")[1] != 2121]
+        if codes not in (["150", "226"], ["150", "200"]) or len(data_t) != 1:
+            problems.append({"kind": "tail-transfer-not-completed", "codes": codes})
+        else:
+            dt = data_t[0]
+            if sock is not None:
+                # keep the session itself alive (one command per second is well within idle_timeout)
+                t = t_verb
+                while t < t_verb + sock + 2:
+                    t += GAP
+                    w.advance_to(t)
+                    if rig.ev(0, "PWD") is None or s.closed():
+                        problems.append({"kind": "session-lost-after-tail-transfer", "at": t})
+                        break
+                if dt.held():
+                    problems.append({"kind": "data-socket-kept-by-a-peer-that-does-not-read", "bound": t_verb + sock})
+                elif dt.lost_time is not None and dt.lost_time < t_verb + sock - 1e-9:
+                    problems.append({"kind": "data-socket-given-up-too-early", "at": dt.lost_time, "bound": t_verb + sock})
+                elif dt.lost_time is not None and dt.lost_time > t_verb + sock + 1e-9:
+                    problems.append({"kind": "data-socket-given-up-too-late", "at": dt.lost_time, "bound": t_verb + sock})
+            else:
+                # no bound configured: the peer may take its time - and gets every byte when it reads on
+                w.advance_to(t_verb + 20)
+                from vf.world import Running
+                with Running(w.loop):
+                    s.data.t.resume_reading()
+                w.settle(0)
+                want = {"RETR d/f": corpus.FILE}.get(verb)
+                if want is not None and bytes(s.data.received) != want:
+                    problems.append({"kind": "tail-lost-although-no-bound-is-configured", "got": bytes(s.data.received).decode("latin-1")})
+                if dt.held():
+                    problems.append({"kind": "data-socket-open-after-the-peer-took-everything"})
+        part.evaluations += 1
+        part.traces += 1
+        part.transitions += w.net.n_events
+        part.states.add(report.fp(["tail", case]))
+        part.nontrivial.add(report.fp(["tail", case]))
+        part.outcomes[report.fp(["tail", codes, [p["kind"] for p in problems]])] += 1
+        for p in problems:
+            part.violation({"kind": p["kind"], "script": "tail:" + verb, "stall": "noread", "cfg": list(case["cfg"])},
+                           {"problem": p, "case": case}, replay={"case": case, "choices": [], "kinds": []})
+    finally:
+        rig.close()
+    return part
+
+
 def _work(item):
     case, bound, kinds = item
     part = report.Partial()
@@ -342,6 +410,8 @@ def _work(item):
         return run_throttled(case)
     if case.get("chatty"):
         return run_chatty(tuple(case["cfg"]))
+    if case.get("tail"):
+        return run_tail(case)
     try:
         for ch, res in explore(lambda c: run_stall(case, c), bound, kinds=kinds, max_exec=3000):
             if ch is None:
@@ -369,6 +439,9 @@ def build_items(tier):
     cfgs = list(itertools.product((None, IDLE), (None, SOCK), (None, WF)))
     for cfg in cfgs:
         items.append(({"chatty": True, "cfg": list(cfg)}, 0, []))
+        for verb in ("RETR d/f", "LIST", "MLSD d"):
+            for sndbuf in (0, 4, 6):
+                items.append(({"tail": True, "cfg": list(cfg), "verb": verb, "sndbuf": sndbuf}, 0, []))
         for name, script in QUIT_SCRIPTS.items():
             items.append(({"cfg": list(cfg), "script": name, "k": len(script), "kind": "noread"}, 0, []))
         for name, script in SCRIPTS.items():
@@ -416,6 +489,10 @@ def run(tier, seed, t0):
 def replay(path):
     data = json.loads(open(path).read())
     rp = data["replay"]
+    if rp["case"].get("tail"):
+        part = run_tail(rp["case"])
+        print(json.dumps([v for v in part.violations], indent=1, default=repr))
+        return 1 if part.violations else 0
     if rp["case"].get("throttled"):
         part = run_throttled(rp["case"])
         print(json.dumps([v["detail"] for v in part.violations], indent=1, default=repr))
